@@ -24,6 +24,7 @@ def confirm(wt, n, sid, breaks):
     patch = os.path.join(out, f"change{n}.diff")
     demo_dir = os.path.join(out, f"demo{n}")
     run_md = open(os.path.join(demo_dir, "RUN.md")).read()
+    run_md = re.sub(r"\\\n\s*", " ", run_md)  # join continued shell lines
     m = re.search(r"(cargo test[^\n`]*--test[^\n`]*)", run_md)
     cmd = m.group(1).strip() if m else None
     cmd = re.sub(r"CARGO_TARGET_DIR=\S+\s*", "", cmd or "")
